@@ -1,4 +1,5 @@
 import Rie.Proofs.Sys
+import Rie.Proofs.SysIds
 import Rie.Props.RoutesTable
 
 /-!
@@ -115,5 +116,34 @@ theorem C02_id_validator_in_source :
       [("POST", "/2018-06-01/runtime/invocation/{awsrequestid}/response"),
        ("POST", "/2018-06-01/runtime/invocation/{awsrequestid}/error")] := by
   rw [RoutesTable.gen_routes_match]; decide
+
+/-- **Ids not issued yet are refused — whole runs.** After ANY sequence of ops from a freshly started
+    emulator (any scheduler choices), a response or error under an invocation number that has not been
+    issued (`k ≥ nextK`: an unknown id) is refused with 400 and changes nothing — the current reservation's
+    number is always below the counter (`Rie.Sys.KInv`, `Rie/Proofs/SysIds.lean`). Together with
+    `C02_wrong_id_inert` (any id other than the current one) and `C01_fresh_id_run` (a new invocation's id
+    differs from every id still held) this is the whole-run form of "only the request id of the invocation
+    currently in flight". -/
+theorem C02_unissued_id_refused_run (s0 : State) (h0 : known s0 = []) (ops : List (Nat × Op)) (k size : Nat) (h : String) (bad : Bool) :
+    let s := (run s0 [] ops).1
+    s.nextK ≤ k →
+    rtResponse s (some k) size h bad = reply s "rt" "response" "400,InvalidRequestID" ∧
+    ∀ et, rtError s (some k) et = reply s "rt" "error" "400,InvalidRequestID" := by
+  intro s hk
+  apply C02_wrong_id_inert
+  right
+  intro hc
+  have i0 : KInv s0 := by intro k hk; rw [h0] at hk; cases hk
+  have i := kinv_run s0 [] ops i0
+  -- the current id is the reservation's number, which is held
+  have hmem : k ∈ known s := by
+    unfold currentId at hc
+    cases hr : s.resv with
+    | none => rw [hr] at hc; cases hc
+    | some r =>
+      rw [hr] at hc
+      have : r.k = k := by simpa using hc.symm
+      simp [mem_known, hr, this]
+  exact absurd (i k hmem) (Nat.not_lt.mpr hk)
 
 end Rie.Props.C02
